@@ -157,3 +157,24 @@ func Bool(b bool) string {
 }
 
 func List(items []string) string { return "[" + strings.Join(items, "; ") + "]" }
+
+// PatchStats updates the "extra" section of an already written stats file.
+func PatchStats(dir, prop string, f func(extra map[string]interface{})) error {
+	path := filepath.Join(dir, "stats_"+prop+".json")
+	b, err := os.ReadFile(path)
+	if err != nil {
+		return err
+	}
+	var st map[string]interface{}
+	if err := json.Unmarshal(b, &st); err != nil {
+		return err
+	}
+	extra, _ := st["extra"].(map[string]interface{})
+	if extra == nil {
+		extra = map[string]interface{}{}
+	}
+	f(extra)
+	st["extra"] = extra
+	b, _ = json.MarshalIndent(st, "", " ")
+	return os.WriteFile(path, b, 0o644)
+}
